@@ -33,53 +33,37 @@
    without_* of the eight earlier fixes are "that fix and C11-10 missing", [without_in_place] is the
    code with the eight fixes only.
 
-   What is proved and what is not (C11_full stays a Definition, see C11_partial_note below):
-   * PROVED, unbounded, for ANY WELL-FORMED FIELD in the sense of C10 (RelGrammar.wf_rfield:
-     arbitrary white space in every slot, newlines, empty entries, trailing comma, substitution
-     variables) and the empty field, for all twelve operations (push / insert / replace /
-     remove_entry / Entry::push / Entry::replace / remove_relation / set_version /
-     drop_constraint / set_archqual, and set_architectures / add_profile), operands built by
-     Entry::from(vec![Relation::new(..)]) / Relation::new with identifier texts (section 1b) or
-     obtained by parsing the text of any well-formed entry / relation with Entry::from_str /
-     Relation::from_str (section 1c; the two kinds mixed freely in a history).
-     One operation (C11_any_step, C11_any_step_tree, C11_any_field_step): the register machine,
-     started with the tree of the field in the root register, does not panic; the root then holds
-     the tree of the layout the abstract operation [a_op] produces; that layout is well-formed;
-     its content is the list model [xstep] applied to the content before; substitution variables
-     and all entries the operation does not name are untouched (the same layouts, so the same
-     text).  Histories by induction (C11_any_history, _from_text, _from_strict_text, _from_empty,
-     _all) and the re-read after every step through C10 (C11_any_reread): the printed text is a
-     well-formed field and parses, without error (strictly, when substitution variables are not
-     allowed), to exactly the list model's content.
-     No new defect turned up on the odd-but-well-formed layouts: with the eight fixes every
-     operation is total on well-formed layouts (C11_any_step: a_op is defined whenever the
-     positions exist, in particular Entry::remove's "Unexpected node" panic is unreachable).
-   * PROVED earlier, for fields built by the constructors (sections 1, 2): the same with the
-     result spelled out as the canonical tree and text of the list model [lfield] of
-     RelEditSpec.v and read by the accessor model [structure]:
-     C11_history_constructed(_reread), C11_history_from_constructors, C11_history_from_new.
-   * PROVED for ANY children list (any layout, error nodes included): the frame lemmas of the
-     list surgery (section 3), the store-level effect of Entry::remove through a handle at any
-     path of any tree (section 4), and the machine = tree function theorem on any tree
-     (C11_any_machine_step).
-   * NOT PROVED — what remains of C11_full (covered by the rel-edit stream and its oracle on
-     every run): (a) operands built by RelationBuilder / From<lossy::Relation> (qualifier,
-     architectures, profiles added to a relation that is the root of its own tree: the
-     re-rooting tail of set_version & co. then takes its parentless branch) and Entry::new +
-     push; the layers above the store are already stated for an arbitrary well-formed operand
-     layout;
-     (b) C11_full quantifies over every text that PARSES without error; section 1b quantifies
-     over the renderings of well-formed fields (C10 proves wf field => parses without error to
-     rtree_of; the converse, that nothing else parses without error, is not proved);
-     (c) section 1b states the content with C10's [rcontent]/[racc] (name, qualifier, operator
-     and version text, architectures, profiles) and C11_full with this cone's accessor model
-     [structure]; the two are not connected by a theorem for arbitrary layouts.
-   * PROVED with proposed_fixes/C11-10 (section 1d): handles obtained at ANY earlier time.  For
-     every program of the eighteen operations through arbitrary registers (in scope: see 1d) the
-     machine does not panic, the root holds the list model's content, and every Entry / Relation
-     handle denotes the entry / alternative the abstract reading says it does (positions shifted
-     by the edits in front of it) — C11_handles_step, _history, _history_field.  The pre-fix
-     code refutes it: C11_in_place_refuted, C11_in_place_relation_refuted. *)
+   What is proved:
+   * C11_full ITSELF (RelEditSpec.C11_full, the property as first stated, for the code as it is in
+     /repo): C11_full_theorem in section 1e.  From any text that is read without error and whose
+     accessors do not panic (`structure t0 = Ok f0`: every version operator is one of the five;
+     C11_full_domain_witness shows that this hypothesis is needed), every in-range history of the
+     twelve operations with well-formed operands — any record, built by Relation::new or by
+     RelationBuilder — runs without panic, leaves exactly the list model's field in the root, keeps
+     the substitution variables, and prints a text that is read again without error to that same
+     field.  One correction of the STATEMENT was needed (not of the code): `compile` builds an operand
+     record that has architectures or profiles through RelationBuilder also when it has no qualifier
+     (C11_builder_operand_witness); nothing was removed from the statement.
+     How: C10's image theorem (every error-free text is the rendering of a LIBERAL layout,
+     RelGrammarAll.afield: any operator run, versions like 5::, "[]", "<>", "[!! x !]", "<! a>", CR as
+     white space) + model/RelLiveAll.v, the mirror of RelLive.v with liberal parts (the editing
+     operations only look at the KINDS of a relation's children; the inside of a part is carried along
+     unchanged) + proofs/RelLiveAll*P.v (the mirrors of RelLive*P.v; new: the token list of a
+     normalised live layout is a lexer output, RelLiveAllNormP.lexable_norm; the content of a layout
+     is what RelEdit.structure reads, structure_ltree) + proofs/RelEditBuildP.v (RelationBuilder at
+     store level).  C11_all_step / _history / _reread / _start are the single-step, history, re-read
+     and embedding theorems of that development; C11_all_handles_* lift the handle theorems of
+     section 1d to it (model/RelHandlesAll.v, proofs/RelHandlesAllP.v).
+   * Sections 1, 1b, 1c, 1d (earlier): the same for constructor-built fields with the canonical tree
+     spelled out, for Policy-shaped fields (RelGrammar.wf_rfield) with contents stated through C10's
+     racc, for operands obtained by PARSING (Entry::from_str / Relation::from_str), and for handles
+     obtained at any earlier time.  Sections 2-4: canonical shapes, frame lemmas on ANY children
+     list, the store-level effect of Entry::remove.  Sections 5, 6: for every defect of the code
+     before this cone's fixes a `_refuted` theorem.
+   * What is NOT proved (covered by the rel-edit stream and its oracle on every run): operands
+     obtained by parsing are proved for Policy-shaped fields only (section 1c), not yet in the liberal
+     development; in the handle theorems (1d, 1e): operations issued through a handle into an operand
+     not yet handed over, or through a handle whose node has left the field. *)
 From V.model Require Import Base RelLex RelParse RelAcc RelGrammar RelEdit RelEditSpec RelEditTree RelLive RelHandles.
 From V.model Require RelLiveAll RelHandlesAll.
 From V.proofs Require Import BaseP RelEditP RelEditStP RelEditHistP RelEditReparseP RelEditFullP RelEditRefuteP.
